@@ -9,9 +9,9 @@ API for other models (pdfs/pmfs/cdfs of the distributions):
   `Cv.lnGammaFn: α → α`       Rust `ln_gamma`
   `Cv.betaFn   : α → α → α`   Rust `beta`
   `Cv.digammaFn: α → α`       Rust `digamma`  (recursion with fuel `digammaFuel`, see below)
-  `Cv.erfFn    : α → α`       Rust `erf`
-All need `[Add α] [Sub α] [Mul α] [Div α] [Neg α] [One α] [NatCast α] [LT α] [DecidableLT α] [LE α]
-[DecidableLE α] [Cv.Transc α] [Cv.OfLit α]` (only the ones a function really uses).  At `α = Float` every
+  `Cv.erfFn    : α → α`       Rust `erf`  (needs `[Cv.SignBit α]`: branch on the sign bit, `Float` instance included)
+All need `[Add α] [Sub α] [Mul α] [Div α] [Neg α] [One α] [NatCast α] [LT α] [DecidableLT α]
+[Cv.Transc α] [Cv.OfLit α]`, `erfFn` also `[Cv.SignBit α]` (only the ones a function really uses).  At `α = Float` every
 instance exists after `import Compute.Model.Special`, and each function is bit-identical to the Rust one
 (checked by `./check C09` on ~10⁵–10⁶ arguments per run).  For `ℝ` the instances `Cv.C09.instOfLitReal` and
 `Cv.C09.instTranscReal` are in `Compute/Lemmas/C09.lean` (scoped: `open scoped Cv.C09`).
@@ -34,6 +34,14 @@ class OfLit (α : Type) where
 export OfLit (ofLit)
 
 instance : OfLit Float := ⟨fun l => Float.ofBits l.bits⟩
+
+/-- Rust's `f64::is_sign_positive`: the sign bit is clear (`+0.0`, positive numbers, `+∞`, NaNs with a clear sign bit).
+At `Float` it is read off the bit pattern; over an ordered field (one zero, no NaN) it is `0 ≤ x`
+(`Cv.C09.instSignBitReal`, and `Cv.C09.LawfulSignBitField` for abstract fields, in the proof files). -/
+class SignBit (α : Type) where
+  isSignPositive : α → Bool
+
+instance : SignBit Float := ⟨fun x => x.toBits >>> 63 == 0⟩
 
 namespace Special
 open C09T
@@ -141,17 +149,17 @@ def digammaFn (x : α) : α := (digammaF digammaFuel x).getD (digammaSeries x)
 end
 
 section
-variable {α : Type} [Add α] [Sub α] [Mul α] [Div α] [Neg α] [One α] [Zero α] [Transc α] [OfLit α]
-  [LE α] [DecidableLE α]
+variable {α : Type} [Add α] [Sub α] [Mul α] [Div α] [Neg α] [One α] [Transc α] [OfLit α] [SignBit α]
 
-/-- Rust `erf`, recursion transcribed with fuel: `if x >= 0. { … } else { -erf(-x) }`.
-(For a NaN argument neither `x >= 0.` nor `-x >= 0.` holds: the Rust function recurses forever; here `none`.) -/
+/-- Rust `erf` (since repair F56), recursion transcribed with fuel:
+`if x.is_sign_positive() { … } else { -erf(-x) }`.  The branch is on the SIGN BIT, not on an order comparison, so `-0.0`
+is mirrored like every other negative argument and a NaN takes one of the two branches like any other value. -/
 def erfF : Nat → α → Option α
   | 0, _ => none
-  | n + 1, x => if (0 : α) ≤ x then some (erfPos x) else (erfF n (-x)).map fun e => -e
+  | n + 1, x => if SignBit.isSignPositive x then some (erfPos x) else (erfF n (-x)).map fun e => -e
 
-/-- Rust `erf` after the single sign-flip step (for arguments that are not NaN). -/
-def erfFn (x : α) : α := if (0 : α) ≤ x then erfPos x else -(erfPos (-x))
+/-- Rust `erf` after the single sign-flip step. -/
+def erfFn (x : α) : α := if SignBit.isSignPositive x then erfPos x else -(erfPos (-x))
 
 end
 end Special
